@@ -34,6 +34,19 @@ def gen_unsat_docs(rng, n):
             lines += [["sequence", "tc", t, L], ["strand", False, "stc", [["tc", False], ["d0", False], ["tc", False]], 2 * L + [l for l in lines if l[0] == "sequence" and l[1] == "d0"][0][3]]]
             d0 = [l for l in lines if l[0] == "sequence" and l[1] == "d0"][0][3]
             lines.append(["structure", 1, "Htc", ["stc"], "(" * L + "." * d0 + ")" * L])
+        elif r < 0.75:
+            # the over-constraint lives only among sequences no strand uses
+            k = rng.choice(["clash", "selfwc", "supclash"])
+            if k == "clash":
+                a, b = rng.choice([("AAGT", "AAGC"), ("SN", "WN"), ("R", "Y"), ("NNA", "NNC")])
+                lines += [["sequence", "ua", a, len(a)], ["sequence", "ub", b, len(b)], ["equal", [["ua", False], ["ub", False]]]]
+            elif k == "selfwc":
+                L = rng.choice([1, 3, 5])
+                lines += [["sequence", "up", "N" * L, L], ["equal", [["up", False], ["up", True]]]]
+            else:
+                lines += [["sequence", "u1", "SS", 2], ["sequence", "u2", "WW", 2], ["sequence", "u3", "NN", 2],
+                          ["sup-sequence", "us1", [["u1", False], ["u3", False]], 4], ["sup-sequence", "us2", [["u2", False], ["u3", False]], 4],
+                          ["equal", [["us1", False], ["us2", False]]]]
         docs.append({"source": "hand", "lines": lines, "text": pepper.pil_text(rng, lines, handwritten=True)})
     return docs
 
@@ -43,7 +56,7 @@ def run(tier, seed, build):
     docs = c04.gen_docs(rng, n // 2) + gen_unsat_docs(rng, n - n // 2)
     failures, stats = c04.evaluate(docs)
     return {"evaluations": 2 * len(docs), "distinct_nontrivial": len(stats["nontrivial"]),
-            "rule": "PIL documents as in C04 plus documents with planted hairpins pairing a domain with itself, long odd cycles through starred equal statements over odd-length domains, and template clashes inside a repeated sequence; both layouts; the implementation must raise the over-constrained error exactly when the denotation-level oracle finds no assignment. Non-trivial = unsatisfiable, or satisfiable with shared classes",
+            "rule": "PIL documents as in C04 plus documents with planted hairpins pairing a domain with itself, long odd cycles through starred equal statements over odd-length domains, template clashes inside a repeated sequence, and over-constraints that live only among sequences no strand uses (clashing equal lines, a sequence equal to its own complement, clashing super-sequences); both layouts; the implementation must raise the over-constrained error exactly when the denotation-level oracle finds no assignment. Non-trivial = unsatisfiable, or satisfiable with shared classes",
             "samples": [d["text"] for d in docs[-2:]],
             "distribution": {k: v for k, v in stats.items() if k != "nontrivial"}, "failures": failures["C15"]}
 
